@@ -541,4 +541,102 @@ instance (s : Lsm) (cd : CompactDef) : Decidable (IsL0L0 s cd) := by unfold IsL0
 instance (s : Lsm) (cd : CompactDef) : Decidable (IsLmax s cd) := by unfold IsLmax; infer_instance
 instance (s : Lsm) (cd : CompactDef) : Decidable (CompactOk s cd) := by unfold CompactOk; infer_instance
 
+namespace LL
+
+theorem flatten_sorted_iff (tbls : List Tbl) :
+    SortedEnts (tbls.map (·.ents)).flatten ↔ (∀ t ∈ tbls, SortedEnts t.ents) ∧ tbls.Pairwise (Sep elt) := by
+  rw [sorted_iff, List.pairwise_flatten, List.pairwise_map]
+  constructor
+  · rintro ⟨h1, h2⟩
+    exact ⟨fun t ht => (sorted_iff _).mpr (h1 _ (List.mem_map.mpr ⟨t, ht, rfl⟩)), h2⟩
+  · rintro ⟨h1, h2⟩
+    refine ⟨?_, h2⟩
+    intro l hl
+    obtain ⟨t, ht, rfl⟩ := List.mem_map.mp hl
+    exact (sorted_iff _).mp (h1 t ht)
+
+theorem keyDisjoint_iff (tbls : List Tbl) : KeyDisjoint tbls ↔ tbls.Pairwise (Sep keyLt) := Iff.rfl
+
+theorem Sep.keyLt_elt {a b : Tbl} (h : Sep keyLt a b) : Sep elt a b :=
+  fun x hx y hy => .inl (h x hx y hy)
+
+/-- entries of the tables a compaction reads -/
+def topEnts (s : Lsm) (cd : CompactDef) : List Ent := ((cdTops s cd).map (·.ents)).flatten
+def botEnts (s : Lsm) (cd : CompactDef) : List Ent := ((cdBots s cd).map (·.ents)).flatten
+
+/-- the level lists after a compaction -/
+def newNext (s : Lsm) (cd : CompactDef) (new0 : List Tbl) : List Tbl :=
+  sortBySmallest (removeIdx (cdNextT s cd) (if cd.thisLevel = cd.nextLevel then cd.top ++ cd.bot else cd.bot) ++
+    withIds new0 cd.outIds)
+def newLevels (s : Lsm) (cd : CompactDef) (new0 : List Tbl) : List (List Tbl) :=
+  if cd.thisLevel = cd.nextLevel then s.levels.set cd.nextLevel (newNext s cd new0)
+  else (s.levels.set cd.nextLevel (newNext s cd new0)).set cd.thisLevel (removeIdx (cdThisT s cd) cd.top)
+
+theorem compact_some {s s' : Lsm} {cd : CompactDef} {d n now : Nat} (h : s.compact cd d n now = some s') :
+    ∃ new0, splitSizes cd.outSizes (compactOutput s cd d n now).1 = some new0 ∧
+      s' = { s with levels := newLevels s cd new0 } := by
+  unfold Lsm.compact at h
+  simp only at h
+  cases hsp : splitSizes cd.outSizes (compactOutput s cd d n now).1 with
+  | none => rw [hsp] at h; simp at h
+  | some new0 =>
+    rw [hsp] at h
+    refine ⟨new0, rfl, ?_⟩
+    simp only at h
+    unfold newLevels newNext cdNextT cdThisT
+    by_cases hc : cd.thisLevel = cd.nextLevel
+    · rw [if_pos hc, if_pos hc]
+      have : (cd.thisLevel == cd.nextLevel) = true := by simpa using hc
+      rw [if_pos this] at h
+      rw [← hc]
+      exact (Option.some.inj h).symm
+    · rw [if_neg hc, if_neg hc]
+      have : ¬ (cd.thisLevel == cd.nextLevel) = true := by simpa using hc
+      rw [if_neg this] at h
+      exact (Option.some.inj h).symm
+
+theorem mem_compactOutput {s : Lsm} {cd : CompactDef} {d n now : Nat} {e : Ent}
+    (h : e ∈ (compactOutput s cd d n now).1) : e ∈ topEnts s cd ∨ e ∈ botEnts s cd := by
+  unfold compactOutput at h
+  simp only at h
+  have h1 := C12_merge_mem_flatten (C12_filter_mem h)
+  rw [List.flatten_append] at h1
+  rcases List.mem_append.mp h1 with h2 | h2
+  · left
+    unfold topEnts cdTops cdThisT
+    split at h2
+    · rw [List.mem_flatten] at h2 ⊢
+      obtain ⟨l, hl, hel⟩ := h2
+      obtain ⟨t, ht, rfl⟩ := List.mem_map.mp hl
+      exact ⟨t.ents, List.mem_map.mpr ⟨t, List.mem_reverse.mp ht, rfl⟩, hel⟩
+    · exact h2
+  · right
+    unfold botEnts cdBots cdNextT
+    simp only [List.flatten_cons, List.flatten_nil, List.append_nil] at h2
+    rw [List.mem_flatten] at h2 ⊢
+    obtain ⟨l, hl, hel⟩ := h2
+    obtain ⟨t, ht, rfl⟩ := List.mem_map.mp hl
+    exact ⟨t.ents, List.mem_map.mpr ⟨t, (List.mem_filter.mp ht).1, rfl⟩, hel⟩
+
+theorem compactOutput_sorted {s : Lsm} {cd : CompactDef} (d n now : Nat)
+    (ht : ∀ t ∈ cdTops s cd, SortedEnts t.ents) (hb : SortedEnts (botEnts s cd)) :
+    SortedEnts (compactOutput s cd d n now).1 := by
+  unfold compactOutput
+  simp only
+  apply C12_filter_sorted
+  apply C12_merge_sorted
+  intro src hsrc
+  rcases List.mem_append.mp hsrc with h | h
+  · split at h
+    · obtain ⟨t, ht', rfl⟩ := List.mem_map.mp h
+      exact ht t (List.mem_reverse.mp ht')
+    · obtain ⟨t, ht', rfl⟩ := List.mem_map.mp h
+      exact ht t ht'
+  · simp only [List.mem_singleton] at h
+    subst h
+    unfold botEnts at hb
+    rw [flatten_sorted_iff] at hb ⊢
+    exact ⟨fun t ht' => hb.1 t (List.mem_filter.mp ht').1, hb.2.sublist List.filter_sublist⟩
+
+end LL
 end Badger
